@@ -292,7 +292,8 @@ def layouts(draw, token_list):
             break
         nxt = tokens[index + 1]
         glue_ok = (kind == 'mark' or nxt[1] == 'mark') and not (
-            kind == 'pat' and nxt[0] not in (']', ')', '}')) \
+            kind == 'pat' and nxt[0] not in (']', ')', '}', '[', '{',
+                                             '(')) \
             and not (text == '-' and nxt[0] == '-')
         choice = draw(st.integers(0, 9))
         if glue_ok and choice < 5:
@@ -418,6 +419,12 @@ LIST_CASES = [      # (plain, written with braces / calls, expected visits)
     # brackets round the call that is a routine's whole body
     ('define q_say with q_x println q_x define q_h q_say 5 q_h',
      'define q_say with q_x println q_x define q_h [q_say 5] q_h', [5]),
+    # an opening bracket or brace needs no white space in front of it, also
+    # after a time pattern
+    ('define q_r begin println 1 end time at 8:00 [q_r]',
+     'define q_r begin println 1 end time at 8:00[q_r]', [1]),
+    ('define q_s with q_t q_x println q_x q_s 6:30 {1 + 2}',
+     'define q_s with q_t q_x println q_x q_s 6:30{1 + 2}', [3]),
     # braces round the single constant of a macro
     ('define q_m 5 println q_m', 'define q_m {5} println q_m', [5]),
     ('define q_m "A" on q_m println q_m', 'define q_m {"A"} on q_m println q_m',
@@ -446,7 +453,9 @@ def check_list_values(acc):
                 plain, outs[0], expected), case)
         elif outs[1] != expected:
             acc.fail('list-values:' + ('call' if '[' in written else 'braces')
-                     + (':define' if written.startswith('define') else ''),
+                     + (':define' if written.startswith('define q_') and
+                        'time' not in written and '6:30' not in written
+                        else ':glued' if written.startswith('define') else ''),
                      '{} visited {}, the same list written plainly visits {}'
                      .format(written, outs[1], expected), case)
 
